@@ -953,6 +953,11 @@ C09_MODULES.update({
               "function e.num(frame) return 12.5 end\nfunction e.fn(frame) return function() end end\nreturn e",
     "probe2": "local e = {}\nfunction e.main(frame) return 'p2=' .. tostring(string.trim2) .. tostring(table.size2) .. tostring(mw.compat_loaded) end\nreturn e",
 })
+C09_MODULES.update({
+    # JSON data loaded with mw.loadJsonData and written to by the module (the returned table is writable)
+    "usejson": "local e = {}\nfunction e.main(frame) local d = mw.loadJsonData('Module:jdata.json') local ok = pcall(function() "
+               "d.n = (d.n or 0) + 1 d.list[#d.list + 1] = 'x' end) return 'j=' .. tostring(d.n) .. ',' .. tostring(#d.list) end\nreturn e",
+})
 C09_TEMPLATES = dict(STD_TEMPLATES, **{"cnt": "{{#invoke:counter|main}}/{{#invoke:counter|main}}"})
 
 
@@ -968,6 +973,7 @@ def c09_db(scratch):
             ctx.add_page("Module:" + k, 828, v, model="Scribunto")
         for k, v in C09_TEMPLATES.items():
             ctx.add_page("Template:" + k, 10, v)
+        ctx.add_page("Module:jdata.json", 828, '{"n": 0, "list": ["a"]}', model="json")
         ctx.db_conn.commit()
         ctx.db_conn.close()
     return path
@@ -1234,18 +1240,21 @@ def impl_c20(case, scratch):
             s = dict(spec, out=out, barrier=barrier, pages=[C20_TEXTS[i % len(C20_TEXTS)] for i in spec["pages"]])
             if s.get("gate"):
                 s["gate"] = dict(s["gate"], reached=os.path.join(d, "reached%d" % w), release=os.path.join(d, "release%d" % w))
+                if "release_on" in s["gate"]:
+                    # this worker goes on as soon as worker <release_on> has reached its own gate
+                    s["gate"]["release"] = os.path.join(d, "reached%d" % s["gate"]["release_on"])
             procs.append((subprocess.Popen([_sys.executable, os.path.join(here, "worker_child.py"), p, json.dumps(s)],
                                            stdout=subprocess.PIPE, stderr=subprocess.PIPE, text=True), s))
         open(barrier, "w").write("go")
         import time
         # gated schedule: wait until the gated worker reached its line, let the others finish, then release it
-        gated = [(pr, s) for pr, s in procs if s.get("gate")]
+        gated = [(pr, s) for pr, s in procs if s.get("gate") and "release_on" not in s["gate"]]
         if gated:
             t0 = time.time()
             while not all(os.path.exists(s["gate"]["reached"]) or pr.poll() is not None for pr, s in gated) and time.time() - t0 < 30:
                 time.sleep(0.01)
             for pr, s in procs:
-                if not s.get("gate"):
+                if not s.get("gate") or "release_on" in s["gate"]:
                     try:
                         pr.wait(timeout=60)
                     except subprocess.TimeoutExpired:
